@@ -355,6 +355,7 @@ def judge(job):
         try:
             for fn, content in files.items():
                 mode = 'wb' if isinstance(content, bytes) else 'w'
+                os.makedirs(os.path.dirname(os.path.join(d, fn)), exist_ok=True)
                 with open(os.path.join(d, fn), mode) as f:
                     f.write(content)
             argv = argv_fn(d)
@@ -493,6 +494,15 @@ def include_cases():
                                       'b.prophy': '#include "d.prophy"\nstruct B { D d; };\n',
                                       'c.prophy': '#include "d.prophy"\nstruct C { D d; };\n',
                                       'd.prophy': 'struct D { u8 x; };\n'}, 'm.prophy'))
+    # cycles that close through another spelling of a file already being parsed
+    cases.append(('cyclic include through a subdirectory', {'m.prophy': '#include "sub/b.prophy"\nstruct X { u8 a; };\n',
+                                                            'sub/b.prophy': '#include "../m.prophy"\nstruct Y { u8 a; };\n'}, 'm.prophy'))
+    cases.append(('self include with a dot', {'m.prophy': '#include "./m.prophy"\nstruct X { u8 a; };\n'}, 'm.prophy'))
+    cases.append(('cyclic include with dots', {'m.prophy': '#include "b.prophy"\nstruct X { u8 a; };\n',
+                                               'b.prophy': '#include "./sub/../m.prophy"\nstruct Y { u8 a; };\n',
+                                               'sub/keep.prophy': ''}, 'm.prophy'))
+    cases.append(('repeated include under two spellings', {'m.prophy': '#include "b.prophy"\n#include "./b.prophy"\nstruct X { B b; };\n',
+                                                           'b.prophy': 'struct B { u8 a; };\n'}, 'm.prophy'))
     cases.append(('bad directive', {'m.prophy': '#import "b.prophy"\nstruct X { u8 a; };\n', 'b.prophy': ''}, 'm.prophy'))
     cases.append(('include of broken file', {'m.prophy': '#include "b.prophy"\nstruct X { u8 a; };\n',
                                             'b.prophy': 'struct {'}, 'm.prophy'))
@@ -732,6 +742,7 @@ def replay(art):
     d = T.fresh_dir('c13r')
     try:
         for fn, content in art['inputs'].items():
+            os.makedirs(os.path.dirname(os.path.join(d, fn)), exist_ok=True)
             with open(os.path.join(d, fn), 'wb') as f:
                 f.write(content.encode('latin-1'))
         argv = [a.replace('<dir>', d) for a in art['argv']]
